@@ -161,6 +161,22 @@ class ImplStack:
             return orig_queue(entry, remote=remote)
 
         self.p.announcer.queue_send = queue_send
+        # ghost observation of the store-level notifications (C05/C09 whole-run theorem): instance attributes shadow the
+        # two methods; `service_offered` reads them at call time
+        self.slog = []
+        disc = self.p.discovery
+        orig_off, orig_stop = disc._notify_service_offered, disc._notify_service_stopped
+
+        def note_offered(service, source):
+            self.slog.append(f"+{svckey(service)}@{idx_of(source)}")
+            return orig_off(service, source)
+
+        def note_stopped(service, source):
+            self.slog.append(f"-{svckey(service)}@{idx_of(source)}")
+            return orig_stop(service, source)
+
+        disc._notify_service_offered, disc._notify_service_stopped = note_offered, note_stopped
+        self.slog_seen = 0
 
     def close(self):
         if isinstance(_random.uniform, _UniformDispatch) and _random.uniform.stack is self:
@@ -242,8 +258,19 @@ class ImplStack:
         ready = [self.name(h) for h in self.loop.ready_handles()]
         timers = sorted((self.loop.deadline(h), self.loop.vseq.get(id(h), -1), self.name(h) or "?")
                         for h in self.loop._scheduled if not h._cancelled)
+        def tm(h):
+            return "~" if h is None else str(self.loop.vseq.get(id(h), -1))
+
+        def store(ts, fmt):
+            return ";".join(f"{idx_of(a)}:" + "|".join(f"{fmt(k)}#{tm(v[1])}" for k, v in d.items()) for a, d in ts.store.items())
+
+        found = store(self.p.discovery.found_services, svckey)
+        subs = " ".join(f"{i}>" + store(inst.subscriptions, subkey) for i, inst in enumerate(self.instances))
+        slog = ",".join(self.slog[self.slog_seen:])
+        self.slog_seen = len(self.slog)
         return (f"now={self.loop.ticks} outs=[{' ; '.join(self.outs[n0:])}] ready=[{','.join(str(r) for r in ready)}] "
-                f"timers=[{','.join(f'{q}@{d}:{n}' for d, q, n in timers)}]")
+                f"timers=[{','.join(f'{q}@{d}:{n}' for d, q, n in timers)}]"
+                f" found=[{found}] subs=[{subs}] slog=[{slog}]")
 
     def apply(self, line: str) -> str:
         """line: 'in <input>' | 'run' | 'fire q' | 'adv t'"""
